@@ -513,9 +513,19 @@ impl Session {
     ///
     /// Return `true` if a new exchange was created, and `false` otherwise.
     pub(crate) fn post_recv(&mut self, rx_header: &PacketHdr) -> Result<bool, Error> {
-        if !self
-            .rx_ctr_state
-            .post_recv(rx_header.plain.ctr, self.is_encrypted(), false)
+        // Group data messages are de-duplicated per sender by the group counter store, which knows
+        // about the roll-over of group counters and outlives the ephemeral group sessions (see
+        // `Sessions::get_or_create_for_group_rx` and `decode_packet`: every group data message
+        // passes the store before it gets here). A second, per-session window with the unicast
+        // (non roll-over) comparison would reject counters the store has just accepted.
+        let store_checked = matches!(self.mode, SessionMode::Group { .. })
+            && rx_header.plain.is_group_session()
+            && !rx_header.plain.is_control_msg();
+
+        if !store_checked
+            && !self
+                .rx_ctr_state
+                .post_recv(rx_header.plain.ctr, self.is_encrypted(), false)
         {
             Err(ErrorCode::Duplicate)?;
         }
